@@ -857,18 +857,41 @@ pub fn build_plan(rng: &mut Rng, seed: u64, c: &Corpus) -> SimPlan {
                 spec.debug_iters = rng.chance(1, 2);
                 job = Job::from_spec(&format!("genprog:{}:twin", root), disk, spec);
             }
-            if let Some(twin) = failing_twin(rng, &job) {
+            // the twin fails through an injected error in its text, or
+            // (1 in 4) through an I/O fault on one of its files: the faulted
+            // execution is history only, it is not compared with anything
+            let mut twin_faults: Vec<crate::fs::Fault> = Vec::new();
+            let twin = if rng.chance(1, 4) {
+                let mut t = job.clone();
+                t.name = format!("failing-twin[io-fault]({})", job.name);
+                let files: Vec<String> = job.disk.files().iter().map(|(k, _)| (*k).clone()).collect();
+                let outs: Vec<String> = job.spec.as_ref().map(|s| s.groups.iter().filter_map(|g| g.out.clone()).collect()).unwrap_or_default();
+                if !outs.is_empty() && rng.chance(1, 3) {
+                    let o = &outs[rng.below(outs.len())];
+                    let path = if o.starts_with('/') { o.clone() } else { format!("{}/{}", corpus::PROJ, o) };
+                    twin_faults.push(crate::fs::Fault { path, kind: *rng.pick(&[crate::fs::FaultKind::Unwritable, crate::fs::FaultKind::WriteError]) });
+                } else if !files.is_empty() {
+                    let path = files[rng.below(files.len())].clone();
+                    twin_faults.push(crate::fs::Fault { path, kind: *rng.pick(&[crate::fs::FaultKind::Missing, crate::fs::FaultKind::Unreadable, crate::fs::FaultKind::ReadError]) });
+                }
+                Some(t)
+            } else {
+                failing_twin(rng, &job)
+            };
+            if let Some(twin) = twin {
                 let keys = rng.bytes16();
                 let mut jobs = vec![twin, job];
                 let mut idx = vec![0usize, 1];
+                let mut faults = vec![twin_faults, vec![]];
                 if rng.chance(1, 3) {
                     // the job itself first as well: success, failure, success
                     jobs.insert(0, jobs[1].clone());
+                    faults.insert(0, vec![]);
                     idx = vec![0, 1, 2];
                 }
                 let n = jobs.len();
                 let reuse: Vec<bool> = (0..n).map(|i| i > 0 && rng.chance(1, 2)).collect();
-                return SimPlan { faults: vec![vec![]; n], jobs, threads: vec![ThreadPlan { keys: keys_to_hex(&keys), jobs: idx, reuse, offsets: vec![0; n] }], schedule: vec![], sched_seed: None, switch_16: 0, clock: vec![], lib_pass: true, all_formats: true, realfs: false, env: vec![] };
+                return SimPlan { faults, jobs, threads: vec![ThreadPlan { keys: keys_to_hex(&keys), jobs: idx, reuse, offsets: vec![0; n] }], schedule: vec![], sched_seed: None, switch_16: 0, clock: vec![], lib_pass: true, all_formats: true, realfs: false, env: vec![] };
             }
         }
     }
@@ -952,6 +975,9 @@ pub fn check_plan(plan: &SimPlan, res: &PlanResult, refs: &BTreeMap<String, Reco
     for (i, jr) in res.runs.iter().enumerate() {
         let job = &plan.jobs[jr.job];
         let jd = hex128(job.digest());
+        if plan.faults.get(jr.job).map(|f| !f.is_empty()).unwrap_or(false) {
+            continue; // an execution under an injected I/O fault is history, not a subject
+        }
         let reference = match refs.get(&jd) {
             Some(r) => r,
             None => continue,
